@@ -15,23 +15,32 @@ Proof.
   rewrite (H x (or_introl eq_refl)), IH; [reflexivity|]. intros y Hy. apply H. right. exact Hy.
 Qed.
 
-Lemma json_ok_jtags tags : json_ok (jtags tags) = true.
+Lemma tag_item_json_ok i : tag_item_ok i = true -> json_ok i = true.
+Proof. destruct i; try discriminate; reflexivity. Qed.
+
+Lemma json_ok_jtags tags : tags_ok tags = true -> json_ok (jtags tags) = true.
 Proof.
-  unfold jtags. cbn [json_ok]. apply forallb_forall. intros v Hv. apply in_map_iff in Hv. destruct Hv as [t [<- _]].
-  cbn [json_ok]. apply forallb_forall. intros u Hu. apply in_map_iff in Hu. destruct Hu as [s [<- _]]. reflexivity.
+  unfold jtags, tags_ok. intros H. cbn [json_ok]. apply forallb_forall. intros v Hv. apply in_map_iff in Hv.
+  destruct Hv as [t [<- Ht]]. cbn [json_ok]. apply forallb_forall. intros u Hu.
+  rewrite forallb_forall in H. specialize (H t Ht). rewrite forallb_forall in H. apply tag_item_json_ok, H, Hu.
 Qed.
 
 (* ---------- util.event_as_json on admitted events is the printer ---------- *)
-Lemma render_tag_wf t : render_tag (JArr (map JStr t)) = Some (print false (JArr (map JStr t))).
+Lemma tag_item_print i : tag_item_ok i = true -> tag_item i = Some (print false i).
+Proof. destruct i; try discriminate; reflexivity. Qed.
+
+Lemma render_tag_wf t : forallb tag_item_ok t = true -> render_tag (JArr t) = Some (print false (JArr t)).
 Proof.
-  unfold render_tag. rewrite map_map. cbn [tag_item]. rewrite all_some_map_some. cbn [print]. rewrite map_map. reflexivity.
+  intros H. unfold render_tag. rewrite (all_some_map_ext tag_item (print false)); [reflexivity|].
+  intros x Hx. apply tag_item_print. rewrite forallb_forall in H. apply H, Hx.
 Qed.
 
-Lemma render_tags_wf tags :
-  render_tags (jtags tags) = Some (join [44] (map (print false) (map (fun t => JArr (map JStr t)) tags))).
+Lemma render_tags_wf tags : tags_ok tags = true ->
+  render_tags (jtags tags) = Some (join [44] (map (print false) (map JArr tags))).
 Proof.
-  unfold render_tags, jtags. rewrite (all_some_map_ext render_tag (print false)); [reflexivity|].
-  intros v Hv. apply in_map_iff in Hv. destruct Hv as [t [<- _]]. apply render_tag_wf.
+  intros H. unfold render_tags, jtags. rewrite (all_some_map_ext render_tag (print false)); [reflexivity|].
+  intros v Hv. apply in_map_iff in Hv. destruct Hv as [t [<- Ht]]. apply render_tag_wf.
+  unfold tags_ok in H. rewrite forallb_forall in H. apply H, Ht.
 Qed.
 
 Lemma enc_hex up s : is_lower_hex s = true -> encode_string up s = 34 :: s ++ [34].
@@ -52,7 +61,7 @@ Lemma print_event_frame sub w :
   print false (event_frame_value sub w) =
   s_event_open ++ encode_basestring sub ++ s_id ++ w_id w ++ s_created ++ print_int (w_created_at w) ++ s_pubkey
   ++ w_pubkey w ++ s_kind ++ print_int (w_kind w) ++ s_sig ++ w_sig w ++ s_content ++ encode_basestring (w_content w)
-  ++ s_tags ++ join [44] (map (print false) (map (fun t => JArr (map JStr t)) (w_tags w))) ++ s_close.
+  ++ s_tags ++ join [44] (map (print false) (map JArr (w_tags w))) ++ s_close.
 Proof.
   intros H. unfold hex_fields_ok in H. apply andb_true_iff in H. destruct H as [H Hs].
   apply andb_true_iff in H. destruct H as [Hi Hp].
@@ -61,34 +70,37 @@ Proof.
   rewrite (enc_hex false _ Hi), (enc_hex false _ Hp), (enc_hex false _ Hs).
   generalize (encode_string false sub) (w_id w) (print_int (w_created_at w)) (w_pubkey w) (print_int (w_kind w))
              (w_sig w) (encode_string false (w_content w))
-             (join [44] (map (print false) (map (fun t => JArr (map JStr t)) (w_tags w)))).
+             (join [44] (map (print false) (map JArr (w_tags w)))).
   intros a b c d e f g h.
   unfold s_event_open, s_id, s_created, s_pubkey, s_kind, s_sig, s_content, s_tags, s_close,
          k_id, k_created, k_pubkey, k_kind, k_sig, k_content, k_tags.
   cbn [join]. repeat (rewrite <- app_assoc || rewrite <- app_comm_cons). reflexivity.
 Qed.
 
+Lemma event_ok_split w : event_ok w = true -> hex_fields_ok w = true /\ tags_ok (w_tags w) = true.
+Proof. unfold event_ok. intros H. apply andb_true_iff in H. exact H. Qed.
+
 Lemma event_as_json_is_print sub w :
-  hex_fields_ok w = true ->
+  event_ok w = true ->
   event_as_json sub (raw_of w) = Some (print false (event_frame_value sub w)).
 Proof.
-  intros H. rewrite (print_event_frame sub w H).
+  intros H0. destruct (event_ok_split w H0) as [H Ht]. rewrite (print_event_frame sub w H).
   unfold event_as_json, event_body, raw_of. cbn [r_tags r_id r_created_at r_pubkey r_kind r_sig r_content].
-  rewrite render_tags_wf. cbn [py_str py_fmt]. repeat rewrite <- app_assoc. reflexivity.
+  rewrite (render_tags_wf _ Ht). cbn [py_str py_fmt]. repeat rewrite <- app_assoc. reflexivity.
 Qed.
 
-Lemma json_ok_event_frame sub w : json_ok (event_frame_value sub w) = true.
+Lemma json_ok_event_frame sub w : tags_ok (w_tags w) = true -> json_ok (event_frame_value sub w) = true.
 Proof.
-  unfold event_frame_value, event_obj. cbn [json_ok forallb snd]. rewrite json_ok_jtags. reflexivity.
+  intros H. unfold event_frame_value, event_obj. cbn [json_ok forallb snd]. rewrite (json_ok_jtags _ H). reflexivity.
 Qed.
 
 (* every EVENT frame parses to the expected array, with the subscription id equal to the client's string *)
 Lemma event_frame_parses sub w :
-  hex_fields_ok w = true ->
+  event_ok w = true ->
   exists raw, event_as_json sub (raw_of w) = Some raw /\ frame_is raw (event_frame_value sub w).
 Proof.
   intros H. eexists. split; [apply event_as_json_is_print; exact H|].
-  apply parse_print. apply json_ok_event_frame.
+  apply parse_print. apply json_ok_event_frame. apply (event_ok_split w H).
 Qed.
 
 Lemma eose_is_print up sub : eose_frame up sub = print up (eose_frame_value sub).
@@ -99,6 +111,18 @@ Qed.
 
 Lemma eose_frame_parses up sub : frame_is (eose_frame up sub) (eose_frame_value sub).
 Proof. unfold frame_is. rewrite eose_is_print. apply parse_print. reflexivity. Qed.
+
+(* the model's serializers are the interpretation of the templates *)
+Lemma interp_event_template sub e : interp sub e model_event_template = event_as_json sub e.
+Proof.
+  unfold model_event_template, event_as_json, event_body. cbn [interp interp_piece].
+  destruct (render_tags (r_tags e)) as [tags|]; destruct (py_str (r_id e)) as [i|]; destruct (py_str (r_created_at e)) as [c|];
+    destruct (py_str (r_pubkey e)) as [p|]; destruct (py_str (r_kind e)) as [k|]; destruct (py_str (r_sig e)) as [s|];
+    reflexivity.
+Qed.
+
+Lemma interp_eose_template sub e : interp sub e model_eose_template = Some (eose_frame true sub).
+Proof. unfold model_eose_template, eose_frame, rj_string. cbn [interp interp_piece]. reflexivity. Qed.
 
 (* ---------- hex ---------- *)
 Lemma list_ind2 {A} (P : list A -> Prop) :
@@ -173,56 +197,64 @@ Qed.
 (* ---------- codecs ---------- *)
 Local Open Scope Z_scope.
 
-Lemma mp_tags_back tags : all_some (map mp_tag (map (fun t => MArr (map MStr t)) tags)) = Some tags.
+Lemma mp_item_back i : tag_item_ok i = true -> mp_item (mp_of_item i) = Some i.
+Proof. destruct i; try discriminate; reflexivity. Qed.
+
+Lemma mp_tags_back tags : tags_ok tags = true ->
+  all_some (map mp_tag (map (fun t => MArr (map mp_of_item t)) tags)) = Some tags.
 Proof.
-  rewrite map_map. rewrite (all_some_map_ext _ (fun t => t)); [rewrite map_id; reflexivity|].
-  intros t _. cbn [mp_tag]. rewrite map_map. cbn [mp_str]. rewrite all_some_map_some, map_id. reflexivity.
+  intros H. rewrite map_map. rewrite (all_some_map_ext _ (fun t => t)); [rewrite map_id; reflexivity|].
+  intros t Ht. cbn [mp_tag]. rewrite map_map. rewrite (all_some_map_ext _ (fun i => i)); [rewrite map_id; reflexivity|].
+  intros i Hi. apply mp_item_back. unfold tags_ok in H. rewrite forallb_forall in H. specialize (H t Ht).
+  rewrite forallb_forall in H. apply H, Hi.
 Qed.
 
-Lemma jv_tags_back tags : all_some (map jv_tag (map (fun t => JArr (map JStr t)) tags)) = Some tags.
+Lemma jv_tags_back tags : tags_ok tags = true -> all_some (map jv_tag (map JArr tags)) = Some tags.
 Proof.
-  rewrite map_map. rewrite (all_some_map_ext _ (fun t => t)); [rewrite map_id; reflexivity|].
-  intros t _. cbn [jv_tag]. rewrite map_map. cbn [jv_str]. rewrite all_some_map_some, map_id. reflexivity.
+  intros H. rewrite map_map. rewrite (all_some_map_ext _ (fun t => t)); [rewrite map_id; reflexivity|].
+  intros t Ht. cbn [jv_tag]. rewrite (all_some_map_ext _ (fun i => i)); [rewrite map_id; reflexivity|].
+  intros i Hi. unfold jv_item. unfold tags_ok in H. rewrite forallb_forall in H. specialize (H t Ht).
+  rewrite forallb_forall in H. rewrite (H i Hi). reflexivity.
 Qed.
 
 Lemma kv_roundtrip now w row :
-  kv_encode w = Some row -> hex_fields_ok w = true -> w_id w <> [] -> w_created_at w <> 0 ->
+  kv_encode w = Some row -> event_ok w = true -> w_id w <> [] -> w_created_at w <> 0 ->
   kv_decode now row = Some w.
 Proof.
-  intros E H Hid Hc. unfold hex_fields_ok in H. apply andb_true_iff in H. destruct H as [H Hs].
+  intros E H0 Hid Hc. destruct (event_ok_split w H0) as [H Ht]. unfold hex_fields_ok in H. apply andb_true_iff in H. destruct H as [H Hs].
   apply andb_true_iff in H. destruct H as [Hi Hp].
   unfold kv_encode in E. destruct (bytes_of_hex (w_id w)) as [i|] eqn:Ei; [|discriminate].
   destruct (bytes_of_hex (w_pubkey w)) as [p|] eqn:Ep; [|discriminate].
   destruct (bytes_of_hex (w_sig w)) as [s|] eqn:Es; [|discriminate].
-  destruct (mp_int_ok (w_created_at w) && mp_int_ok (w_kind w) && utf8_ok (w_content w) && forallb (forallb utf8_ok) (w_tags w))%bool; [|discriminate].
-  inversion E; subst row. cbn [kv_decode]. rewrite mp_tags_back.
+  destruct (mp_int_ok (w_created_at w) && mp_int_ok (w_kind w) && utf8_ok (w_content w) && forallb (forallb item_mp_ok) (w_tags w))%bool; [|discriminate].
+  inversion E; subst row. cbn [kv_decode]. rewrite (mp_tags_back _ Ht).
   destruct i as [|i0 i']; [apply bytes_of_hex_nil in Ei; contradiction|].
   rewrite (hex_roundtrip _ _ Ei Hi), (hex_roundtrip _ _ Ep Hp), (hex_roundtrip _ _ Es Hs).
   replace (w_created_at w =? 0) with false by lia. destruct w; reflexivity.
 Qed.
 
 Lemma db_roundtrip now w row :
-  db_encode w = Some row -> hex_fields_ok w = true -> w_id w <> [] -> w_created_at w <> 0 ->
+  db_encode w = Some row -> event_ok w = true -> w_id w <> [] -> w_created_at w <> 0 ->
   db_decode now row = Some w.
 Proof.
-  intros E H Hid Hc. unfold hex_fields_ok in H. apply andb_true_iff in H. destruct H as [H Hs].
+  intros E H0 Hid Hc. destruct (event_ok_split w H0) as [H Ht]. unfold hex_fields_ok in H. apply andb_true_iff in H. destruct H as [H Hs].
   apply andb_true_iff in H. destruct H as [Hi Hp].
   unfold db_encode in E. destruct (bytes_of_hex (w_id w)) as [i|] eqn:Ei; [|discriminate].
   destruct (bytes_of_hex (w_pubkey w)) as [p|] eqn:Ep; [|discriminate].
   destruct (bytes_of_hex (w_sig w)) as [s|] eqn:Es; [|discriminate].
-  destruct (sql_int_ok (w_created_at w) && sql_int_ok (w_kind w) && utf8_ok (w_content w) && forallb (forallb utf8_ok) (w_tags w))%bool; [|discriminate].
+  destruct (sql_int_ok (w_created_at w) && sql_int_ok (w_kind w) && utf8_ok (w_content w) && forallb (forallb item_db_ok) (w_tags w))%bool; [|discriminate].
   inversion E; subst row. unfold db_decode. cbn [d_tags d_id d_pubkey d_created_at d_kind d_content d_sig].
-  change (91%N :: join [44%N] (map (print true) (map (fun t : list pystr => JArr (map JStr t)) (w_tags w))) ++ [93%N])
+  change (91%N :: join [44%N] (map (print true) (map JArr (w_tags w))) ++ [93%N])
     with (print true (jtags (w_tags w))).
-  rewrite (parse_print true (jtags (w_tags w)) (json_ok_jtags _)). unfold jtags at 1.
+  rewrite (parse_print true (jtags (w_tags w)) (json_ok_jtags _ Ht)). unfold jtags at 1.
   destruct i as [|i0 i']; [apply bytes_of_hex_nil in Ei; contradiction|].
-  rewrite jv_tags_back.
+  rewrite (jv_tags_back _ Ht).
   rewrite (hex_roundtrip _ _ Ei Hi), (hex_roundtrip _ _ Ep Hp), (hex_roundtrip _ _ Es Hs).
   replace (w_created_at w =? 0) with false by lia. destruct w; reflexivity.
 Qed.
 
 Lemma served_verbatim now p w w' :
-  hex_fields_ok w = true -> w_id w <> [] -> w_created_at w <> 0 ->
+  event_ok w = true -> w_id w <> [] -> w_created_at w <> 0 ->
   served now p w = Some w' -> w' = w.
 Proof.
   intros H Hid Hc S. destruct p; cbn [served] in S.
